@@ -44,6 +44,18 @@ CLAIMED = {
    text="Partial by nature (runtime). Theorems for the logic part: the copy permutation is independent of the iteration order of the hash map of witness classes (C18_sigma_order_independent), field sums are order-independent (C18_field_sum_reassoc), and for EVERY worker-thread count the range-split butterfly of the final FFT stages equals the serial one (C18_fft_threads_independent); rayon combinators are assumed to have their sequential meaning. What no model can exhibit - real interleavings, per-process hash seeds, separate compilation - is checked impl-vs-impl on every run: key digests and proof bytes under pools {1,2,3,4,5,8,16,17} at a 2^12 domain with the same scripted RNG, in two processes and in an alloc-only (no std, serial paths) build, and 8 threads proving/verifying concurrently on shared keys vs sequentially.",
    technique="Coq proof (order/thread independence lemmas) + impl-vs-impl byte comparison across pools, processes, builds and concurrent callers",
    design="5/C18"),
+ "C15": dict(
+   text="Theorems: both compilation routes succeed or fail for exactly the same capacities (C15_capacity_equiv); the dictionary encoding of the description is lossless - every interned scalar / selector tuple is found again under its index, built-in table entries keep their index, no key is held twice (C15_dictionary_*); first-use relabelling of witnesses preserves exactly the copy classes (C15_relabel_preserves_classes) and the copy permutation is independent of the hash-map iteration order (C15_sigma_order_independent). Deflate and MessagePack are contracts. On every run both routes are compared on the real code (prover/verifier digests, cross-route proofs) for circuits with each built-in table entry as selector (incl. all nine MDS values), unused witnesses, zero PIs, first/last-row PIs, SRS degrees from 1 to 2x needed against the proved capacity functions, and malformed descriptions with peak allocation.",
+   technique="Coq proof (dictionary interning, relabelling, capacity arithmetic) + route-vs-route differential check and malformed-description sweep",
+   design="5/C15, 6/F7"),
+ "C16": dict(
+   text="Theorems on the length-prefixed layouts used by the key encodings: fixed-width integers and vectors of fixed-size elements round-trip for every element codec that round-trips, and a sequence of vectors of ARBITRARY different lengths has size equal to the sum of the actual sizes and round-trips (C16_prover_key_size_exact, C16_vecs_roundtrip - the statement the pre-fix serialization_size violated, F1). Element codecs (scalars, G1/G2) are contracts of dusk-bls12_381. On every run prover, verifier, proofs and public parameters of many circuits (every gate-family usage pattern, sizes 4..70, the F1 circuit) go through bytes on the real code: identical re-encoding, identical proof from identical scripted randomness, identical verdicts on honest and bit-flipped proofs, canonicity of every accepted 1008-byte string.",
+   technique="Coq proof (length-prefixed codec round trip and exact size) + round-trip differential check on the real encoders/decoders",
+   design="5/C16, 6/F1"),
+ "C17": dict(
+   text="Theorems on the model of the checked length-prefixed decoders: total, and bounded - whatever is accepted was paid for by input bytes because the count is validated against the remaining input before anything is built (C17_decode_vec_bounded). Absence of panics, the allocation bound and well-formedness of accepted values on the real decoders are established by structure-aware mutation on a build with debug assertions and overflow checks (988 mutants per quick run: bit flips, every length field to extremes, truncation/extension/splices, hand-built invalid points and scalars, raw commit-key flags and non-reduced limbs, re-packed MessagePack/deflate, bombs), every accepted value being used once. Known finding F3 (non-reduced raw limbs accepted) is reproduced on every run; F2 (flag byte panic) was fixed.",
+   technique="Coq proof (bounded total decoder model) + structure-aware mutation of real encodings on a checked build with a counting allocator",
+   design="5/C17, 6/F2-F3"),
  "C08": dict(
    text="Machine-checked theorems (Props/C08.v) state, for every selector tuple, wiring and assignment, the exact relation each arithmetic/equality/boolean/selection component enforces, uniqueness of returned witnesses, completeness of honest values and locality of arithmetic blocks inside any satisfied system; the Gallina composer model they are about is compared on every run with the real Composer (gates, public-input rows, witness values) on generated programs, and the real snapshots are probed with perturbed assignments evaluated by the proved-sound row evaluator.",
    technique="Coq proof over a Gallina model of the composer + differential correspondence (L3 snapshot tie) + exactness probe on real layouts",
